@@ -416,6 +416,57 @@ fn ex_ed25519(n: &mut Net, out: &mut RunOut, tier: Tier) {
         yesno(out, "ed25519trunc", matches!(r, Some(Some(_))));
         out.probe("probe.exchange.truncated_verification");
     }
+    // The signer-adversary against the baby-step / giant-step search of truncated verification: the missing top
+    // bits s1 of S are found as s1 = a + I*b (0 <= a < I, -J <= b <= J). Honest signatures land on the edges of
+    // that search (b = 0: an intermediate point is the neutral; b = +/-J, a = I-1, s1 = +/-2^m: first / last table
+    // and loop positions) with probability about 2^-15 each; a signer who grinds the message counter gets them
+    // at will. (Not under the interpreter: tens of thousands of signatures.)
+    if n.t.chance(1, 40) {
+        let rm = rm_bits(n.t, tier);
+        let class = n.t.usize(5);
+        if !cfg!(miri) {
+            let nbits = 256 - rm;
+            let m = rm - 5;
+            let nj = m.min(14);
+            let ni = m - nj;
+            let (ii, jj) = (1i64 << ni, 1i64 << nj);
+            let mut found: Option<(Vec<u8>, Vec<u8>)> = None;
+            let base = n.rng.bytes(12);
+            for ctr in 0u32..120_000 {
+                let mut mm = base.clone();
+                mm.extend_from_slice(&ctr.to_le_bytes());
+                let sg = sk.sign_raw(&mm);
+                // hi = S >> nbits (S < 2^253, so at most rm - 3 bits)
+                let mut hi: u64 = 0;
+                for bit in nbits..256 {
+                    hi |= (((sg[32 + (bit >> 3)] >> (bit & 7)) & 1) as u64) << (bit - nbits);
+                }
+                let s1 = hi as i64 - (1i64 << m);
+                let a = s1.rem_euclid(ii);
+                let b = (s1 - a) / ii;
+                let hit = match class {
+                    0 => b == 0,
+                    1 => b == jj || b == -jj,
+                    2 => a == ii - 1 && (b == 0 || b.abs() >= jj - 1),
+                    3 => s1 == (1i64 << m) || s1 == -(1i64 << m),
+                    _ => b.abs() <= 1 && a == 0,
+                };
+                if hit {
+                    found = Some((mm, sg.to_vec()));
+                    break;
+                }
+            }
+            if let Some((mm, sg)) = found {
+                out.probe("probe.exchange.ed25519_trunc_signature_ground_to_search_edge");
+                let mut ts = sg.clone();
+                for i in 0..rm / 8 {
+                    ts[63 - i] = 0xAA;
+                }
+                let r = g!(out, "call.ed25519.verify_trunc_raw", format!("rm={} {}", rm, hex(&ts)), sk.public_key.verify_trunc_raw(&ts, rm, &mm));
+                out.ev(format_args!(" ground signature class {} rm={} -> rebuilt equals original: {:?}", class, rm, r.map(|x| x.map(|s| s[..] == sg[..]))));
+            }
+        }
+    }
 }
 
 fn ex_ed448(n: &mut Net, out: &mut RunOut) {
